@@ -60,7 +60,12 @@ fn flag(sh: &Sh, what: String, default: bool) -> Option<bool> {
 
 // ------------------------------------------------------------------------------------- DelayNs
 
-struct PDelay(Sh);
+pub struct PDelay(Sh);
+
+/// A plain delay replaying `sh` (for cells outside this module).
+pub fn plain_delay(sh: &Sh) -> PDelay {
+    PDelay(sh.clone())
+}
 
 impl DelayNs for PDelay {
     fn delay_ns(&mut self, ns: u32) {
